@@ -158,6 +158,9 @@ def check_result(ctx, res, ref_model, ref_content, tgt_content, sig, ds, metric,
       if abs(want2 - want) > 1e-6 * abs(want) + 1e-12:
         ctx.count('nonreproducible_tensor_skipped')
         continue
+      if common.has_hybrid_tensorwise_dwconv(tgt_content) or common.has_hybrid_tensorwise_dwconv(ref_content):
+        ctx.count('nonreproducible_kernel_pattern_skipped')     # KF-DWCONV-DRQ-TENSORWISE: two runs may agree by chance, a third not
+        continue
       ctx.violation('value_differs_from_own_metric', dict(f, group=grp_want), dict(base, tensor=n, reported=val, own=want))
 
 
